@@ -449,7 +449,9 @@ def model_for(case):
             den = 1
             for v in list(co) + [rhs]: den = den * v.denominator // math.gcd(den, v.denominator)
             user_rows.append(([int(c * den) for c in co], int(rhs * den), den))
-    return fc.model_op(case["columns"], case["values"], case["system"], case.get("kw"), exists=exists, user_rows=user_rows)
+    # the user-file variant hands the real code a PATH (not a packaged system name); the model gets the same kind of name
+    sysname = "my_relations.txt" if user_rows is not None else case["system"]
+    return fc.model_op(case["columns"], case["values"], sysname, case.get("kw"), exists=exists, user_rows=user_rows)
 
 
 def evaluate(ctx: Ctx, res: Result, cases):
